@@ -116,7 +116,7 @@ def make_cases(ctx):
         else:
             nts = list(range(1, 17))
         for nt in nts:
-            reps = 4 if quick else 6
+            reps = 3 if quick else 6
             for r in range(reps):
                 coord = rng.randrange(3)
                 dtype = rng.choice(['float32', 'float64'])
@@ -336,8 +336,8 @@ def sorted_unique(c, exp):
 def case_term(c, tstart):
     pos = coqio.lst([coqio.qlist(r) for r in c['pos']])
     w = 'None' if c['weights'] is None else f'(Some {coqio.qlist(c["weights"])})'
-    return coqio.tup([coqio.z(c['nthread']), coqio.z(c['np']), coqio.q(c['box']), coqio.z(c['coord']),
-                      coqio.zlist(tstart), pos, w, coqio.b(c['sort'])])
+    return '(' + coqio.tup([coqio.z(c['nthread']), coqio.z(c['np']), coqio.q(c['box']), coqio.z(c['coord']),
+                            coqio.zlist(tstart), pos, w, coqio.b(c['sort'])]) + ' : case)'
 
 
 def ok_val(v):
@@ -372,7 +372,16 @@ def tstart_table(ctx, cases):
 
 def explore(ctx):
     cases = make_cases(ctx)
-    tab, pairs, tab_err = tstart_table(ctx, cases)
+    import concurrent.futures
+    with concurrent.futures.ThreadPoolExecutor(max_workers=4) as ex:   # fresh interpreters side by side
+        ftab = ex.submit(tstart_table, ctx, cases)
+        futs = {
+            'compiled': ex.submit(run_mode, ctx, 'compiled', 'impl_cases', cases),
+            'boundscheck': ex.submit(run_mode, ctx, 'boundscheck', 'impl_cases', cases, {'NUMBA_BOUNDSCHECK': '1'}),
+            'py_func_permuted': ex.submit(run_mode, ctx, 'py_func', 'impl_cases_pyfunc', cases),
+        }
+        tab, pairs, tab_err = ftab.result()
+        modes = {k: f.result() for k, f in futs.items()}
     counterexamples, mismatches, seen = [], [], set()
     # hypothesis of the theorems on the real block boundaries
     bad_ts = []
@@ -387,14 +396,6 @@ def explore(ctx):
     else:
         mismatches.append({'what': 'tstart hypothesis could not be checked', 'error': tab_err})
 
-    import concurrent.futures
-    with concurrent.futures.ThreadPoolExecutor(max_workers=3) as ex:   # three fresh interpreters side by side
-        futs = {
-            'compiled': ex.submit(run_mode, ctx, 'compiled', 'impl_cases', cases),
-            'boundscheck': ex.submit(run_mode, ctx, 'boundscheck', 'impl_cases', cases, {'NUMBA_BOUNDSCHECK': '1'}),
-            'py_func_permuted': ex.submit(run_mode, ctx, 'py_func', 'impl_cases_pyfunc', cases),
-        }
-        modes = {k: f.result() for k, f in futs.items()}
     dist = {'N': {}, 'npartition': {}, 'nthread': {}, 'coord': {}, 'dtype': {}, 'weights': {}, 'sort': {}, 'style': {},
             'more_threads_than_particles': 0, 'empty_input': 0, 'with_x_eq_box': 0, 'with_duplicate_keys_coord': 0,
             'random_block_boundaries_for_model': 0, 'outcome': {}}
